@@ -1,6 +1,8 @@
 package main
 
 import (
+	"github.com/google/rpmpack"
+
 	"bufio"
 	"fmt"
 	"go/ast"
@@ -108,7 +110,7 @@ func genArch() (string, error) {
 
 type slot struct {
 	slot, sel string
-	mode     string
+	mode      string
 }
 
 func leanSlots(name string, ss []slot) string {
@@ -472,6 +474,23 @@ func leanArms(name string, arms []arm, consts map[string]string) string {
 
 func firstCall(cc *ast.CaseClause) string {
 	res := ""
+	// prefer the rpm conversion call of the arm when there is one
+	for _, st := range cc.Body {
+		ast.Inspect(st, func(n ast.Node) bool {
+			if x, ok := n.(*ast.CallExpr); ok && res == "" && strings.HasPrefix(fullSel(x.Fun), "asRPM") {
+				res = fullSel(x.Fun)
+				if len(x.Args) == 2 {
+					if f := fullSel(x.Args[1]); strings.Contains(f, "rpmpack.") {
+						res += "(" + f + ")"
+					}
+				}
+			}
+			return true
+		})
+	}
+	if res != "" {
+		return res
+	}
 	for _, st := range cc.Body {
 		ast.Inspect(st, func(n ast.Node) bool {
 			if res != "" {
@@ -622,6 +641,24 @@ func genTypes() (string, error) {
 		}
 		sort.Strings(types)
 		fmt.Fprintf(&b, "def archBackupTypes : List Bytes := %s\n", leanStrList(types))
+	}
+	// numeric values of the rpmpack.FileType flags of the rpmpack version the tree links
+	{
+		vals := map[string]int{
+			"ConfigFile": int(rpmpack.ConfigFile), "DocFile": int(rpmpack.DocFile), "GhostFile": int(rpmpack.GhostFile),
+			"LicenceFile": int(rpmpack.LicenceFile), "MissingOkFile": int(rpmpack.MissingOkFile),
+			"NoReplaceFile": int(rpmpack.NoReplaceFile), "ReadmeFile": int(rpmpack.ReadmeFile),
+		}
+		names := make([]string, 0, len(vals))
+		for k := range vals {
+			names = append(names, k)
+		}
+		sort.Strings(names)
+		parts := make([]string, len(names))
+		for i, k := range names {
+			parts[i] = fmt.Sprintf("(%s, %d)", leanStr(k), vals[k])
+		}
+		fmt.Fprintf(&b, "def rpmFlagValues : List (Bytes × Nat) := [%s]\n", strings.Join(parts, ", "))
 	}
 	b.WriteString("end Nfpm.Generated\n")
 	return b.String(), nil
